@@ -204,7 +204,7 @@ def describe_ops(c):
             for cy, op in c.operations_with_cycles()]
 
 
-def arrival_problems(tag, sent_ops, sent_u, y, ops_u=None):
+def arrival_problems(tag, sent_ops, sent_u, y, ops_u=None, layout=True):
     """Compare what arrived (`y`) with the independent record of what was
     sent: `sent_ops` = describe_ops of the source (or the appended record),
     `sent_u` its unitary, `ops_u` the per-operation unitaries."""
@@ -216,6 +216,11 @@ def arrival_problems(tag, sent_ops, sent_u, y, ops_u=None):
     if len(got) != len(sent_ops):
         bad.append((f'{tag}:op-count',
                     f'{len(sent_ops)} operations sent, {len(got)} arrived'))
+    if not layout:      # a trip that re-appends: cycles may be compacted
+        key = (lambda x: repr((x[2], x[1], x[3])))
+        sent_ops = [(0,) + x[1:] for x in sorted(sent_ops, key=key)]
+        got = [(0,) + x[1:] for x in sorted(got, key=key)]
+        ops_u = None
     for i, (s, r) in enumerate(zip(sent_ops, got)):
         if s[0] != r[0] or s[2] != r[2]:
             bad.append((f'{tag}:position',
@@ -588,6 +593,34 @@ def trips(c):
     _ = Operation
 
 
+def edit(c, ops, rng, n):
+    """n public edits that keep using the gates of `ops` on their segments."""
+    seg = {}
+    for g, loc, _ in ops:
+        seg.setdefault(tuple(g.radixes), []).append((g, tuple(loc)))
+    log = []
+    for _ in range(n):
+        pts = [(cy, op) for cy, op in c.operations_with_cycles()]
+        kind = rng.choice(['insert', 'insert', 'pop', 'replace', 'replace'])
+        if kind == 'pop' and len(pts) > 3:
+            cy, op = rng.choice(pts)
+            c.pop((cy, op.location[0]))
+            log.append(f'pop({cy},{op.location[0]})')
+        elif kind == 'replace' and pts:
+            cy, op = rng.choice(pts)
+            g, _ = rng.choice(seg[tuple(op.gate.radixes)])
+            c.replace_gate((cy, op.location[0]), g, op.location,
+                           _params(g, rng))
+            log.append(f'replace_gate(({cy},{op.location[0]}), '
+                       f'{gate_label(g)})')
+        else:
+            g, loc = rng.choice(rng.choice(list(seg.values())))
+            cy = rng.randrange(c.num_cycles + 1)
+            c.insert_gate(cy, g, loc, _params(g, rng))
+            log.append(f'insert_gate({cy}, {gate_label(g)}, {loc})')
+    return log
+
+
 def check_circuit(case, rad, ops, rng):
     """-> list of (signature, what).  `ops` is the record of what is appended."""
     bad = []
@@ -607,12 +640,20 @@ def check_circuit(case, rad, ops, rng):
         bad.append(('appended-differs', f'{case}: the circuit does not hold '
                     f'the operations that were appended: {text}'))
         return bad
+    if case.startswith('edited['):
+        # an editing history over the same neighbours: insert / pop / replace
+        try:
+            text += ' ; then ' + '; '.join(edit(c, ops, rng, 6))
+        except Exception as e:
+            return [(f'neighbour-edit-raises:{type(e).__name__}',
+                     f'{case}: {text}: {e!r}'[:500])]
+        held = describe_ops(c)
     ops_u = [op_unitary(op.gate, op.params)
              for _, op in c.operations_with_cycles()]
     u = circuit_unitary(c)
     # hypothesis of C16_reduce_rebuild_keyed, with the real == as key
     gates = []
-    for g, _, _ in ops:
+    for g in [g for g, _, _ in ops] + [op.gate for op in c]:
         if not any(g is h for h in gates):
             gates.append(g)
     descs = [describe(g) for g in gates]
@@ -643,7 +684,7 @@ def check_circuit(case, rad, ops, rng):
     try:
         nset = len(c.gate_set)
         reps = []
-        for g in gates:
+        for g in [op.gate for op in c]:
             if not any(not different(g, h) for h in reps):
                 reps.append(g)
         if nset != len(reps):
@@ -651,6 +692,27 @@ def check_circuit(case, rad, ops, rng):
                         f'different gates, gate_set has {nset}: {text}'))
     except Exception as e:
         bad.append((f'gate-set-raises:{type(e).__name__}', case))
+    # the payload itself: slot gate_table[op.gate] must hold op's gate
+    # (conclusion of reduceKey_eq_reduceWith, on the real __reduce__)
+    try:
+        import dill
+        _, (_, _, ser, cyc) = c.__reduce__()
+        table = [dill.loads(b) if isd else pickle.loads(b) for isd, b in ser]
+        flat = [m for group in pickle.loads(cyc) for m in group]
+        for i, (m, h) in enumerate(zip(flat, held)):
+            if tuple(m[1]) != h[2]:
+                break       # another iteration order inside a cycle
+            d = describe(table[m[0]])
+            if d != h[1]:
+                bad.append((
+                    'payload-gate-table:' + diff_path(h[1], d)[0],
+                    f'{case}: __reduce__ marshals operation {i} at {h[2]} '
+                    f'with table slot {m[0]}, which holds another gate: '
+                    f'{diff_keys(h[1], d)}; {text}'))
+                break
+    except Exception as e:
+        bad.append((f'payload-raises:{type(e).__name__}',
+                    f'{case}: {e!r}'[:300]))
     for name, f in trips(c):
         try:
             y = f()
@@ -659,9 +721,11 @@ def check_circuit(case, rad, ops, rng):
                         f'{case}: {text}: {e!r}'[:400]))
             continue
         full = name in UNITARY_TRIPS
-        for sig, what in arrival_problems(f'arrival:{name}', held,
-                                          u if full else None, y,
-                                          ops_u if full else None):
+        for sig, what in arrival_problems(
+                f'arrival:{name}', held, u if full else None, y,
+                ops_u if full else None,
+                layout=name not in ('nested-pickle', 'operation-pickle')
+                or not case.startswith('edited[')):
             bad.append((sig, f'{case}: {what}; sent {text}'))
         # and the source is still what it was
         if describe_ops(c) != held:
@@ -736,6 +800,9 @@ def cases(rng, thorough=False):
             rad, ops = family_ops([g for _, g in members], rng)
             out.append((f'family[{label(cls, base)}]', rad, ops))
             stats['family_circuits'] += 1
+            rad, ops = family_ops([g for _, g in members], rng)
+            out.append((f'edited[{label(cls, base)}]', rad, ops))
+            stats['edited_circuits'] = stats.get('edited_circuits', 0) + 1
     gaps, ncls, npar = coverage_gaps(fam)
     stats['classes_with_arguments'] = ncls
     stats['arguments'] = npar
